@@ -84,6 +84,7 @@ class St:
         self.nread = 1
         self.unread = False
         self.tokvars = {}        # python name -> ('type'|'value', token index)
+        self.bools = {}          # python name of a local that holds the outcome of a test made on the path -> bool
         self.broken = False
 
     def copy(self) -> 'St':
@@ -91,6 +92,7 @@ class St:
         n.__dict__.update(self.__dict__)
         n.env = dict(self.env)
         n.tokvars = dict(self.tokvars)
+        n.bools = dict(self.bools)
         n.kv = dict(self.kv) if self.kv is not None else None
         return n
 
@@ -124,6 +126,9 @@ class LoopTr:
     def __init__(self, fn: ast.FunctionDef) -> None:
         self.fn = fn
         self.leaves: list = []
+        self.n_index = 0          # paths on which `contents[-1]` is evaluated where the list may be empty
+        self.root0_guarded: list = []   # per `return root[0]` path: is root known to have a child there?
+        self.brk_tests: dict = {0: {}, 1: {}}    # token index -> {id(node): node} of the line-break tests on its text
         a = fn.args
         # the local variables of parse: a test that mentions no local but the text of one token is a test on that text
         self.locals = {x.arg for x in a.posonlyargs + a.args + a.kwonlyargs} | {
@@ -205,6 +210,10 @@ class LoopTr:
     def raise_leaf(self, e: str) -> tuple:
         return self.leaf('SNone', None, None, False, ('XRaise', e))
 
+    def index_leaf(self) -> tuple:
+        self.n_index += 1
+        return self.raise_leaf('EIndex')
+
     def structural(self, st: St, at_return_root0: bool = False) -> str:
         """The one structural operation of the path, or SUnknown when the loop invariant is not re-established."""
         if st.broken:
@@ -257,10 +266,18 @@ class LoopTr:
             if tv is not None and tv[0] == 'value' and not _is_name(e):
                 if tv[1] not in (0, 1):
                     raise _err(e, 'test on the text of a token other than the key / the value')
+                self.brk_tests[tv[1]][id(e)] = e
                 return ('atom', ('ABrk', tv[1]), False, False)
         if _is_name(e):
+            if e.id in st.bools:
+                return ('const', st.bools[e.id])
             if e.id in OPTS:
                 return ('atom', ('AOpt', OPTS[e.id]), False, False)
+            if e.id == self.stackv:
+                # `open_keyvalues` as a truth value: empty after the pop  <->  the stack was [root] before it
+                if st.open == ('pop',) and st.cur == 'CUR':
+                    return ('atom', ('ACurIsRoot',), True, False)
+                raise _err(e, 'truth test of the block stack where it was not just popped')
             if e.id == self.cfrv:
                 if st.cfr is not None:
                     return ('const', st.cfr)
@@ -305,10 +322,17 @@ class LoopTr:
                                 and self.is_last_child(a.value, st) and _is_name(b_) and st.tokvars.get(b_.id) == ('value', 0):
                             self.need_cur_contents(e, st)
                             return ('atom', ('ALastNameEq',), neg, True)
-            if isinstance(op, (ast.Gt, ast.GtE, ast.NotEq)) and isinstance(l, ast.Call) and _is_name(l.func, 'len') \
-                    and len(l.args) == 1 and _is_name(l.args[0], self.stackv) and isinstance(r, ast.Constant) \
-                    and r.value == (2 if isinstance(op, ast.GtE) else 1) and st.open is None:
-                return ('atom', ('ACurIsRoot',), True, False)      # len(open_keyvalues) > 1
+            if isinstance(l, ast.Call) and _is_name(l.func, 'len') and len(l.args) == 1 and not l.keywords \
+                    and _is_name(l.args[0], self.stackv) and isinstance(r, ast.Constant) and type(r.value) is int:
+                # The stack holds the root and the open blocks: at the start of a pass its length is >= 1, and it is 1
+                # exactly when cur_block is root; after the pop of the pass it is one less.
+                base = 1 if st.open is None else 0 if (st.open == ('pop',) and st.cur == 'CUR') else None
+                if base is not None:
+                    n = r.value - base          # the test compares (number of open blocks) with n
+                    is_root = {(ast.Eq, 0): True, (ast.LtE, 0): True, (ast.Lt, 1): True,
+                               (ast.NotEq, 0): False, (ast.Gt, 0): False, (ast.GtE, 1): False}.get((type(op), n))
+                    if is_root is not None:
+                        return ('atom', ('ACurIsRoot',), not is_root, False)
             raise _err(e, f'unrecognised comparison {ast.unparse(e)[:60]}')
         if isinstance(e, ast.Call):
             f = e.func
@@ -356,10 +380,10 @@ class LoopTr:
         if needs_child:
             hc = st.lookup(('AHasChild',))
             if hc is False:
-                return self.raise_leaf('EIndex')
+                return self.index_leaf()
             if hc is None:          # cur_block_contents[-1] on a list not known to be non-empty
                 return ('If', ('AHasChild',), self.cond_atom(atom, st.assume(('AHasChild',), True), kt, kf),
-                        self.raise_leaf('EIndex'))
+                        self.index_leaf())
         return self.cond_atom(atom, st, kt, kf)
 
     def cond_atom(self, atom, st: St, kt, kf) -> tuple:
@@ -425,6 +449,7 @@ class LoopTr:
             if not final and isinstance(v, ast.Subscript) and _is_name(v.value, self.root) \
                     and isinstance(v.slice, ast.Constant) and v.slice.value == 0:
                 ok = st.cur == 'PARENT' and st.lookup(('AParentIsRoot',)) is True
+                self.root0_guarded.append(ok and st.lookup(('AParentHasChild',)) is True)
                 return self.leaf(self.structural(st, True) if ok else 'SUnknown', None, None, False, ('XReturnRoot0',))
             raise _err(s, 'unrecognised return')
         if isinstance(s, ast.Try):
@@ -505,6 +530,10 @@ class LoopTr:
             st.cur = 'LAST'
             return go(st)
         if len(tgts) == 1 and _is_name(tgts[0], self.curv) and self._is_stack_top(val):
+            # outside try/except IndexError: only where the stack is known not to be empty after the pop
+            if st.open == ('pop',) and st.cur == 'CUR' and st.lookup(('ACurIsRoot',)) is False:
+                st.cur = 'PARENT'
+                return go(st)
             raise _err(s, 'open_keyvalues[-1] read outside the IndexError guard')
         # cur_block_contents = cur_block._value = []   /   cur_block_contents = cur_block._value
         attr_t = [t for t in tgts if isinstance(t, ast.Attribute)]
@@ -530,8 +559,8 @@ class LoopTr:
             if hc is True:
                 return go(st)
             if hc is False:
-                return self.raise_leaf('EIndex')
-            return ('If', ('AHasChild',), go(st.assume(('AHasChild',), True)), self.raise_leaf('EIndex'))
+                return self.index_leaf()
+            return ('If', ('AHasChild',), go(st.assume(('AHasChild',), True)), self.index_leaf())
         # attributes of the new node / of the dummy block
         if attr_t and len(attr_t) == len(tgts) and all(_is_name(t.value) for t in attr_t):
             owners = {t.value.id for t in attr_t}
@@ -562,6 +591,20 @@ class LoopTr:
                 if all(t.attr in ('_folded_name', 'real_name', '_real_name', 'line_num') for t in attr_t):
                     return go(st)
             raise _err(s, f'store to an attribute of {owner}')
+        # a local that holds the outcome of a test: `x = <test>` is `if <test>: x = True else: x = False` (the test is
+        # made where the assignment stands, so an IndexError of the test keeps its place); x may then only be tested
+        if len(tgts) == 1 and len(names) == 1 and names[0] not in (self.curv, self.contv, self.blv, self.cfrv) \
+                and (st.kv is None or names[0] != st.kv['var']) \
+                and isinstance(val, (ast.BoolOp, ast.Compare, ast.UnaryOp, ast.Call)) and not _is_new_node(val):
+            nm = names[0]
+
+            def bound(v):
+                def k(x: St):
+                    x = x.copy()
+                    x.bools[nm] = v
+                    return go(x)
+                return k
+            return self.cond(val, st, bound(True), bound(False))
         raise _err(s, f'unrecognised assignment {ast.unparse(s)[:60]}')
 
     def call_stmt(self, s, c: ast.Call, st: St, go) -> tuple:
